@@ -1,11 +1,13 @@
 (** C13 -- failure atomicity follows the transaction mode (model M-TX of the
     `migrate apply` loop over M-EXEC). Engine assumption (named in the trusted
     base): a transaction is atomic -- its effects reach the committed state
-    only through Commit. The dry-run and `schema apply` clauses of the
-    property are decided by the oracle stage only (see DESIGN.md, C13). *)
+    only through Commit. The dry-run clause is about [migrate_apply]
+    (Exec/DryModel.v: mrrw.Migrate, Pending with the real writer, the loop under
+    the dry-run wrappers), the `schema apply` clause about [apply_changes]
+    (applyChanges + the SQLite transaction opener). *)
 From Coq Require Import List NArith Bool Arith.
 From Atlas Require Import Base.Bytes Base.Stutter Exec.ExecModel Exec.ExecProofs Exec.StepProofs Exec.PendingModel Exec.PendingProofs
-  Exec.RunModel Exec.TxModel Exec.TxProofs Exec.RunProofs Exec.CrashProofs.
+  Exec.RunModel Exec.TxModel Exec.TxProofs Exec.RunProofs Exec.CrashProofs Exec.DryModel Exec.DryProofs.
 Import ListNotations.
 
 Section C13.
@@ -60,43 +62,151 @@ Theorem C13_fail_none :
       = (AFail o, mkDb (d_journal c ++ map snd (journal es)) t', None, tr).
 Proof. exact (apply_loop_none_single hash hash_eqb HS). Qed.
 
-(** Fix and re-run. Setting: directory [dir] (files strictly sorted by version,
-    no checkpoint file, no txmode directive; any file may carry a failing
-    statement [tf_bad]); [c0] a file boundary ([Bd], e.g. the empty database);
+(** Fix and re-run. Setting: the directory is [dskip ++ dir], files strictly
+    sorted by version; [dir] = the directory from its last checkpoint file on;
+    any file may carry a failing statement [tf_bad] and a txmode directive the
+    global mode [g] accepts ([valid]); [c0] is a file boundary ([Bd], e.g. the
+    empty database) whose revision rows are literally completed revisions ([LK]);
     the command fails on a statement ([AFail OStmtErr]) in any mode, with any
-    count. [fixed dir] = the same files with no failing statement. Then
-    `migrate apply` on the fixed directory from the state the failure left, and
-    the same command from [c0] (the run without failure), both succeed and end
-    in a completed state -- every statement's effect exactly once, in plan
-    order, every revision Applied = Total = statement count -- with equal
-    journals. (Equality of the revision rows beyond version/Applied/Total --
-    cleared partial hashes and error flag -- is compared by the tie and the
-    oracle, not proved.) *)
+    count. [fixed dir] = the same files with no failing statement. Then `migrate
+    apply` on the fixed directory from the state the failure left, and the same
+    command from [c0] (the run without failure), both succeed and end in
+    LITERALLY THE SAME STATE [final_db]: journal = every statement exactly once in
+    plan order; one revision row per file with Applied = Total = statement count,
+    no partial hashes, no error, type "execute". *)
 Theorem C13_fix_rerun :
   (forall a b, hash_eqb a b = true <-> a = b) ->
-  forall (dir : list tfile),
-  sorted_files (map tf_file dir) -> (forall f, In f (map tf_file dir) -> f_ckpt f = false) ->
-  no_directive dir ->
-  forall global (c0 : db hash) k0 n o c1 tr,
-  Bd hash HS dir c0 k0 ->
-  apply_run hash hash_eqb HS global n dir c0 = (o, c1, tr) -> o = AFail OStmtErr ->
+  forall (dskip dir : list tfile),
+  sorted_files (map tf_file dskip ++ map tf_file dir) ->
+  from_last_ckpt (map tf_file dskip ++ map tf_file dir) = map tf_file dir ->
+  forall g (c0 : db hash) k0 n o c1 tr,
+  valid g dir -> Bd hash HS dir c0 k0 -> LK hash dir (d_tbl c0) k0 ->
+  apply_run hash hash_eqb HS g n (dskip ++ dir) c0 = (o, c1, tr) -> o = AFail OStmtErr ->
   exists o2 c2 tr2 o3 c3 tr3,
-    apply_run hash hash_eqb HS global 0 (fixed dir) c1 = (o2, c2, tr2) /\
+    apply_run hash hash_eqb HS g 0 (dskip ++ fixed dir) c1 = (o2, c2, tr2) /\
     (o2 = ADone \/ o2 = APend PNoPending) /\
-    apply_run hash hash_eqb HS global 0 (fixed dir) c0 = (o3, c3, tr3) /\
+    apply_run hash hash_eqb HS g 0 (dskip ++ fixed dir) c0 = (o3, c3, tr3) /\
     (o3 = ADone \/ o3 = APend PNoPending) /\
-    completed hash dir c2 /\ completed hash dir c3 /\ d_journal c2 = d_journal c3.
+    c2 = c3 /\
+    c2 = mkDb (map snd (plan (map tf_file dir)))
+              (map (fun f => mkRev (f_version f) (length (f_stmts f)) (length (f_stmts f)) [] false 2%N)
+                   (map tf_file dir)).
 Proof.
-  intros Hspec dir Hs Hn Hd global c0 k0 n o c1 tr.
-  exact (fix_rerun_lemma hash hash_eqb HS Hspec dir Hs Hn Hd global c0 k0 n o c1 tr).
+  intros Hspec dskip dir Hs Hf g c0 k0 n o c1 tr.
+  exact (fix_rerun_lemma hash hash_eqb HS Hspec dskip dir Hs Hf g c0 k0 n o c1 tr).
 Qed.
 
+(** ** --dry-run changes nothing -- except ...
+
+    [migrate_apply dry global n cf dir d]: one `atlas migrate apply` on the target
+    [d] = (does atlas_schema_revisions exist, journal, revision rows). *)
+
+(** Without --dry-run (and without baseline) the command is the [apply_run] of
+    the theorems above; it leaves the revisions table behind. *)
+Theorem C13_apply_is_apply_run :
+  forall global n dir b (c : db hash),
+  migrate_apply hash hash_eqb HS false global n (mkCfg Linear None true true) dir (mkCdb b c) =
+  (let '(o, c', _) := apply_run hash hash_eqb HS global n dir c in (o, mkCdb true c')).
+Proof. exact (migrate_apply_is_apply_run hash hash_eqb HS). Qed.
+
+(** The exact characterisation that holds: if the revisions table already exists
+    and no --baseline is given, `migrate apply --dry-run` leaves the table's
+    existence, every journal row and every revision row unchanged -- for every
+    directory (failing statements, txmode directives valid or not, checkpoint
+    files), every tx-mode, count, execution order and dirty/allow-dirty setting. *)
+Theorem C13_dry_run_except :
+  forall global n cf dir (d : cdb hash),
+  cd_revtable d = true -> c_baseline cf = None ->
+  snd (migrate_apply hash hash_eqb HS true global n cf dir d) = d.
+Proof. exact (dry_run_except_lemma hash hash_eqb HS). Qed.
+
+(** ... and in general: the only things a dry run changes are the creation of the
+    revisions table and the baseline revision that Pending writes. *)
+Theorem C13_dry_run_effect :
+  forall global n cf dir (d : cdb hash),
+  snd (migrate_apply hash hash_eqb HS true global n cf dir d) =
+  mkCdb true (match snd (pending cf (map tf_file dir) (read_revisions hash (d_tbl (cd_db d)))) with
+              | Some r => mkDb (d_journal (cd_db d)) (tbl_put (d_tbl (cd_db d)) r)
+              | None => cd_db d
+              end).
+Proof. exact (dry_run_effect hash hash_eqb HS). Qed.
+
 End C13.
+
+(** The full statement ("any command run with --dry-run leaves schema, data and
+    revision history unchanged") is FALSE of the faithful model -- two witnesses,
+    both reproduced on the real CLI (open known findings
+    C13-dry-run-creates-revisions-table, C13-dry-run-writes-baseline). *)
+Definition dr_dir : list tfile :=
+  [ mkTfile (mkFile [49%N] [[65%N]] false) None None; mkTfile (mkFile [50%N] [[66%N]] false) None None ].
+
+Theorem C13_dry_run_refuted_creates_table :
+  exists global n cf dir (d : cdb bytes),
+    c_baseline cf = None /\
+    snd (migrate_apply bytes bytes_eqb (fun b => b) true global n cf dir d) <> d /\
+    cd_db (snd (migrate_apply bytes bytes_eqb (fun b => b) true global n cf dir d)) = cd_db d /\
+    cd_revtable d = false /\
+    cd_revtable (snd (migrate_apply bytes bytes_eqb (fun b => b) true global n cf dir d)) = true.
+Proof.
+  exists TxFile, 0, (mkCfg Linear None true true), dr_dir, (mkCdb false (mkDb [] [])).
+  split; [reflexivity|]. split; [vm_compute; discriminate|]. vm_compute. repeat split; reflexivity.
+Qed.
+
+Theorem C13_dry_run_refuted_writes_baseline :
+  exists global n cf dir (d : cdb bytes),
+    cd_revtable d = true /\
+    snd (migrate_apply bytes bytes_eqb (fun b => b) true global n cf dir d) <> d /\
+    d_tbl (cd_db d) = [] /\
+    map (fun r => (r_version r, r_kind r))
+        (d_tbl (cd_db (snd (migrate_apply bytes bytes_eqb (fun b => b) true global n cf dir d)))) = [([49%N], 1%N)].
+Proof.
+  exists TxFile, 0, (mkCfg Linear (Some [49%N]) false true), dr_dir, (mkCdb true (mkDb [] [])).
+  split; [reflexivity|]. split; [vm_compute; discriminate|]. vm_compute. split; reflexivity.
+Qed.
+
+(** ** `schema apply` is all-or-nothing in its default transaction mode
+
+    [apply_changes txmode stmts bad viol d]: the planned statements [stmts] are
+    opaque; statement number [bad] (if any) fails; [viol] = the foreign-key check
+    before commit finds a violation that was not there when the transaction was
+    opened. State [d] = (committed effects, the connection's foreign_keys pragma).
+    In any transactional mode (the default is "file"): whatever fails, at any
+    position, the committed state AND the pragma are exactly as before; success
+    commits all statements; it succeeds iff no statement of the plan fails and the
+    foreign-key check is clean. *)
+Theorem C13_schema_apply_atomic :
+  forall txmode stmts bad viol (d : sdb) o d' es,
+  txmode <> TxNone ->
+  apply_changes txmode stmts bad viol d = (o, d', es) ->
+  (o <> SOk -> d' = d) /\
+  (o = SOk -> d' = mkSdb (s_effects d ++ stmts) (s_fk d)) /\
+  (o = SOk <-> (forall b, bad = Some b -> length stmts <= b) /\ (s_fk d && viol = false)) /\
+  (forall k, o = SApplyErr k -> bad = Some k /\ k < length stmts).
+Proof. exact schema_apply_atomic_lemma. Qed.
+
+(** --tx-mode none: exactly the successful prefix stays. *)
+Theorem C13_schema_apply_none :
+  forall stmts bad viol (d : sdb) o d' es,
+  apply_changes TxNone stmts bad viol d = (o, d', es) ->
+  s_fk d' = s_fk d /\
+  match o with
+  | SOk => s_effects d' = s_effects d ++ stmts
+  | SApplyErr k => bad = Some k /\ k < length stmts /\ s_effects d' = s_effects d ++ firstn k stmts
+  | SFkMismatch => False
+  end.
+Proof. exact schema_apply_none_lemma. Qed.
 
 Print Assumptions C13_fail_all.
 Print Assumptions C13_fail_file.
 Print Assumptions C13_fail_none.
 Print Assumptions C13_fix_rerun.
+Print Assumptions C13_apply_is_apply_run.
+Print Assumptions C13_dry_run_except.
+Print Assumptions C13_dry_run_effect.
+Print Assumptions C13_dry_run_refuted_creates_table.
+Print Assumptions C13_dry_run_refuted_writes_baseline.
+Print Assumptions C13_schema_apply_atomic.
+Print Assumptions C13_schema_apply_none.
 
 (** Non-vacuity: two files, the second one failing at its second statement. *)
 Definition s (n : N) : bytes := [40%N; n; 41%N].
@@ -128,8 +238,29 @@ Example C13_fix_rerun_nonvacuous :
     match o, o2 with
     | AFail OStmtErr, ADone =>
         bytes_eqb (concat (d_journal c2)) (concat [s 1; s 2; s 3; s 4]) && (length (d_journal c2) =? 4) &&
-        forallb (fun r => (r_applied r =? r_total r) && negb (r_err r)) (d_tbl c2)
+        forallb (fun r => (r_applied r =? r_total r) && negb (r_err r) && (length (r_hashes r) =? 0)) (d_tbl c2)
     | _, _ => false
     end) [TxNone; TxFile; TxAll] = true /\
-  Bd bytes (fun b => b) ex_dir ex_db0 0.
-Proof. split; [vm_compute; reflexivity|apply Bd_empty]. Qed.
+  Bd bytes (fun b => b) ex_dir ex_db0 0 /\ LK bytes ex_dir (d_tbl ex_db0) 0 /\
+  valid TxNone ex_dir /\ valid TxFile ex_dir /\ valid TxAll ex_dir.
+Proof.
+  split; [vm_compute; reflexivity|]. split; [apply Bd_empty|]. split; [apply LK_empty|].
+  repeat split; intros f [<-|[<-|[]]]; discriminate.
+Qed.
+
+(** dry run on a database with history: something would be executed (file 2 is
+    pending), nothing changes. *)
+Example C13_dry_run_except_nonvacuous :
+  let d := mkCdb true (mkDb [s 1; s 2] [mkRev [49%N] 2 2 [] false 2%N]) in
+  migrate_apply bytes bytes_eqb (fun b => b) true TxNone 0 (mkCfg Linear None true true) ex_dir d = (ADone, d) /\
+  fst (migrate_apply bytes bytes_eqb (fun b => b) false TxNone 0 (mkCfg Linear None true true) ex_dir d) = AFail OStmtErr.
+Proof. vm_compute. split; reflexivity. Qed.
+
+Example C13_schema_apply_nonvacuous :
+  let '(o, d', es) := apply_changes TxFile [s 1; s 2; s 3] (Some 2) false (mkSdb [s 9] true) in
+  o = SApplyErr 2 /\ d' = mkSdb [s 9] true /\ length es = 8 /\
+  let '(o2, d2, _) := apply_changes TxNone [s 1; s 2; s 3] (Some 2) false (mkSdb [s 9] true) in
+  o2 = SApplyErr 2 /\ d2 = mkSdb [s 9; s 1; s 2] true /\
+  let '(o3, d3, _) := apply_changes TxFile [s 1; s 2] None true (mkSdb [s 9] true) in
+  o3 = SFkMismatch /\ d3 = mkSdb [s 9] true.
+Proof. vm_compute. repeat split; reflexivity. Qed.
